@@ -384,6 +384,67 @@ let hp_inst (c : case) : HpDefs.state inst =
     pctag = simple_pctag (fun st -> st.th);
     nm }
 
+(* ---------------------------------------------------------------- vyukov_hash_map, one bucket (C10) and with iterators (C11) *)
+let vhm_resname sn r = match List.map int_of_n r with
+  | [0; 1] -> "new" | [0; 0] -> "old"
+  | [1; 1; _] -> "new:" ^ sn r 2 | [1; 0; _] -> "old:" ^ sn r 2
+  | [2; 1] -> "ok" | [2; 0] -> "no" | [3; 1; _] -> sn r 2 | [3; 0] -> "no"
+  | [4; 1; _] -> sn r 2 | [4; 0] -> "no"
+  | [5; 1; _; _] -> sn r 2 ^ "=" ^ sn r 3 | [5; 0] -> "end"
+  | [6; 1; _; _; _] -> sn r 2 ^ ">" ^ sn r 3 ^ "=" ^ sn r 4 | [6; 0; _] -> sn r 2 ^ ">end" | [6; 2] -> "end" | [7] -> "ok"
+  | _ -> "?"
+let vhm_inst (c : case) : VhmDefs.state inst =
+  let open VhmDefs in
+  let xoff = n_of_string (cfg_get c "xoff" "8256") in
+  let sn r i = string_of_n (List.nth r i) in
+  let nm = { named = (fun _ -> "?");
+    opname = (function 0 -> "ins" | 1 -> "getins" | 2 -> "del" | 3 -> "ext" | 4 -> "get" | _ -> "?");
+    resname = vhm_resname sn; note = no_note } in
+  let stp st a = VhmDefs.step xoff st a in
+  let init =
+    let keys = List.filter (fun s -> s <> "") (String.split_on_char '.' (cfg_get c "init" "")) in
+    List.fold_left (fun st ks ->
+      let k = n_of_string ks in let v = n_of_int (10 * int_of_string ks) in
+      let st = ref (match stp st (Start (O, OIns (k, v))) with Some (s', _) -> s' | None -> st) in
+      let fuel = ref 1000 in
+      while (match !st.th O with Idle -> false | _ -> true) && !fuel > 0 do
+        decr fuel; (match stp !st (Step O) with Some (s', _) -> st := s' | None -> fuel := 0) done; !st) VhmDefs.init keys in
+  { init;
+    idle = (fun st t -> match st.th (nat_of_int t) with Idle -> true | _ -> false);
+    start = (fun st t (name, args) ->
+      let k = match args with v :: _ -> n_of_string v | [] -> n_of_int 0 in
+      let v = match args with _ :: v :: _ -> n_of_string v | [ks] -> n_of_int (10 * int_of_string ks) | _ -> n_of_int 0 in
+      let o = match name with "ins" -> OIns (k, v) | "getins" -> OGetIns (k, v) | "del" -> ODel k | "ext" -> OExt k | _ -> OGet k in
+      match stp st (Start (nat_of_int t, o)) with Some (s', _) -> Some s' | None -> None);
+    step = (fun st t _ -> stp st (Step (nat_of_int t)));
+    pctag = simple_pctag (fun st -> st.th); nm }
+let vhmit_inst (c : case) : VhmItDefs.state inst =
+  let open VhmItDefs in
+  let xoff = n_of_string (cfg_get c "xoff" "8256") in
+  let sn r i = string_of_n (List.nth r i) in
+  let nm = { named = (fun _ -> "?");
+    opname = (function 0 -> "ins" | 1 -> "getins" | 2 -> "del" | 3 -> "ext" | 4 -> "get" | 5 -> "itf" | 6 -> "itb" | 7 -> "itn" | 8 -> "itd" | 9 -> "ite" | 10 -> "itr" | _ -> "?");
+    resname = vhm_resname sn; note = no_note } in
+  let stp st a = VhmItDefs.step xoff st a in
+  let init =
+    let keys = List.filter (fun s -> s <> "") (String.split_on_char '.' (cfg_get c "init" "")) in
+    List.fold_left (fun st ks ->
+      let k = n_of_string ks in let v = n_of_int (10 * int_of_string ks) in
+      let st = ref (match stp st (Start (O, OIns (k, v))) with Some (s', _) -> s' | None -> st) in
+      let fuel = ref 1000 in
+      while (match !st.th O with Idle -> false | _ -> true) && !fuel > 0 do
+        decr fuel; (match stp !st (Step O) with Some (s', _) -> st := s' | None -> fuel := 0) done; !st) VhmItDefs.init keys in
+  { init;
+    idle = (fun st t -> match st.th (nat_of_int t) with Idle | ItIdle _ -> true | _ -> false);
+    start = (fun st t (name, args) ->
+      let k = match args with v :: _ -> n_of_string v | [] -> n_of_int 0 in
+      let v = match args with _ :: v :: _ -> n_of_string v | [ks] -> n_of_int (10 * int_of_string ks) | _ -> n_of_int 0 in
+      let o = match name with "ins" -> OIns (k, v) | "getins" -> OGetIns (k, v) | "del" -> ODel k | "ext" -> OExt k | "get" -> OGet k
+        | "itf" -> OItf k | "itb" -> OItb | "itn" -> OItn | "itd" -> OItd | "ite" -> OIte | _ -> OItr in
+      match stp st (Start (nat_of_int t, o)) with Some (s', _) -> Some s' | None -> None);
+    step = (fun st t _ -> stp st (Step (nat_of_int t)));
+    pctag = simple_pctag (fun st -> st.th); nm }
+
 let () =
   let model = Sys.argv.(1) and cmd = Sys.argv.(2) and path = Sys.argv.(3) in
   let c = parse_case path in
@@ -417,4 +478,6 @@ let () =
   | "hmlit" -> go (hmlit_inst c)
   | "ebr" -> go (ebr_inst c)
   | "hp" -> go (hp_inst c)
+  | "vhm" -> go (vhm_inst c)
+  | "vhmit" -> go (vhmit_inst c)
   | _ -> prerr_endline ("unknown model " ^ model); exit 2
